@@ -507,11 +507,25 @@ func (h *hist) storeValue(k int64) val {
 	return val{Nil: true}
 }
 
-func (h *hist) write(k, d int64) int64 {
+// mark of the row a value is computed from: 0 for "no row", 1 + that row's own write count otherwise
+func vmark(base val) int64 {
+	if base.Nil {
+		return 0
+	}
+	return 1 + (base.V/10000)%100
+}
+
+// The store merges: the row it keeps is computed from its ACTUAL current row, while the callback answers with the
+// value computed from the `existing` argument it was handed (from = that argument; for add: no row).  The two are
+// the same number exactly when the handler passed the store's current row.
+func (h *hist) write(k, d int64, from val) (answer int64) {
+	cur := val{Nil: true}
+	if v, ok := h.m[k]; ok {
+		cur = val{V: v}
+	}
 	h.ver[k]++
-	v := 10000*h.ver[k] + d
-	h.m[k] = v
-	return v
+	h.m[k] = 1000000*vmark(cur) + 10000*h.ver[k] + d
+	return 1000000*vmark(from) + 10000*h.ver[k] + d
 }
 func faultErr(f int) error {
 	switch f {
@@ -584,13 +598,14 @@ func (h *hist) addFn(ctx context.Context, d interface{}) (interface{}, error) {
 		if f == 3 {
 			return val{Nil: true}, nil // nothing stored, nil answered
 		}
-		return val{V: h.write(a.k, a.d)}, nil
+		return val{V: h.write(a.k, a.d, val{Nil: true})}, nil
 	})
 }
 
 func (h *hist) updFn(ctx context.Context, d interface{}, e interface{}) (interface{}, error) {
 	a, _ := d.(addData)
-	return h.callback(ctx, "upd", a.k, a.d, toVal(e), func(f int) (val, error) {
+	pre := toVal(e)
+	return h.callback(ctx, "upd", a.k, a.d, pre, func(f int) (val, error) {
 		if err := faultErr(f); err != nil {
 			return val{}, err
 		}
@@ -601,13 +616,14 @@ func (h *hist) updFn(ctx context.Context, d interface{}, e interface{}) (interfa
 			delete(h.m, a.k) // the row becomes nil
 			return val{Nil: true}, nil
 		}
-		return val{V: h.write(a.k, a.d)}, nil
+		return val{V: h.write(a.k, a.d, pre)}, nil
 	})
 }
 
 func (h *hist) upsertFn(ctx context.Context, d interface{}, e interface{}) (interface{}, error) {
 	a, _ := d.(addData)
-	return h.callback(ctx, "upsert", a.k, a.d, toVal(e), func(f int) (val, error) {
+	pre := toVal(e)
+	return h.callback(ctx, "upsert", a.k, a.d, pre, func(f int) (val, error) {
 		if err := faultErr(f); err != nil {
 			return val{}, err
 		}
@@ -615,7 +631,7 @@ func (h *hist) upsertFn(ctx context.Context, d interface{}, e interface{}) (inte
 			delete(h.m, a.k)
 			return val{Nil: true}, nil
 		}
-		return val{V: h.write(a.k, a.d)}, nil
+		return val{V: h.write(a.k, a.d, pre)}, nil
 	})
 }
 
